@@ -84,10 +84,10 @@ Proof.
   intros ->. unfold has in H1, Hdn. rewrite Hdn in H1. congruence.
 Qed.
 
-Theorem sanitized_start_keeps_fds : forall t0 pre, fds_intact (start_fds true t0 pre) = true.
+Theorem rest_keeps_fds : forall t1 pre, low3 t1 -> fds_intact (rest_fds t1 pre) = true.
 Proof.
-  intros t0 pre. unfold start_fds.
-  pose proof (open_all_low3 pre _ (sanitize_low3 t0)) as L2. set (t2 := open_all (sanitize t0) pre) in *.
+  intros t1 pre L1. unfold rest_fds.
+  pose proof (open_all_low3 pre _ L1) as L2. set (t2 := open_all t1 pre) in *.
   pose proof (fopen_has t2 LockF) as Hl. pose proof (fopen_low3 t2 LockF L2) as L3. pose proof (low3_free _ L2) as F2.
   destruct (fopen t2 LockF) as [t3 lf] eqn:E3. cbn [fst snd] in *.
   assert (Hlf : 3 <= lf) by (unfold fopen in E3; inversion E3; subst; exact F2).
@@ -110,6 +110,21 @@ Proof.
   reflexivity.
 Qed.
 
+Theorem sanitized_start_keeps_fds : forall t0 pre, fds_intact (start_fds true t0 pre) = true.
+Proof. intros t0 pre. unfold start_fds, start_fds_mode. apply rest_keeps_fds. apply sanitize_low3. Qed.
+
+(* background or --syslog alike, once both sanitize steps are there *)
+Theorem sanitized_modes_keep_fds : forall syslog t0 pre, fds_intact (start_fds_mode true true syslog t0 pre) = true.
+Proof. intros [|] t0 pre; unfold start_fds_mode; apply rest_keeps_fds; apply sanitize_low3. Qed.
+
+(* the program between the two repairs: sanitized at the start, but --syslog closes stderr afterwards and nothing
+   re-opens it: with every descriptor open at exec and nothing kept open before the lock (no /dev/log to connect to),
+   the lock file gets descriptor 2 and daemonize_fini's dup2 closes it *)
+Theorem syslog_start_loses_lock : exists t0 pre,
+  fds_intact (start_fds_mode true false true t0 pre) = false /\
+  lock_fd (start_fds_mode true false true t0 pre) = 2.
+Proof. exists [Some Std; Some Std; Some Std], []. split; vm_compute; reflexivity. Qed.
+
 (* the pre-repair program: started with descriptors 0-2 closed and nothing opened before the lock, the lock file
    gets descriptor 0 and daemonize_fini's dup2 closes it *)
 Theorem unsanitized_start_loses_lock : exists t0 pre,
@@ -119,5 +134,6 @@ Theorem unsanitized_start_loses_lock : exists t0 pre,
 Proof. exists [], []. repeat split; vm_compute; auto. Qed.
 
 (* what the current source does *)
-Theorem current_start_keeps_fds : forall t0 pre, fds_intact (start_fds main_sanitizes_std_fds t0 pre) = true.
-Proof. exact sanitized_start_keeps_fds. Qed.
+Theorem current_start_keeps_fds : forall syslog t0 pre,
+  fds_intact (start_fds_mode main_sanitizes_std_fds syslog_branch_resanitizes syslog t0 pre) = true.
+Proof. exact sanitized_modes_keep_fds. Qed.
